@@ -1391,3 +1391,31 @@ theorem decRunA_dpw (p : Params) (pol : Policy) (tun : Tuning) (calls : List ACa
   decCallsA_dpw p 0 calls _ _ _ w' dr res (dpw_fresh pol tun) h
 
 end Woodpile.EncWorld
+
+namespace Woodpile.Iovec
+open Woodpile.Arena
+
+/-- A full drain by slices — `consume(count)` with `count` at least the length of the stable prefix —
+ends at a quiescent point: nothing is consumable any more. -/
+theorem FPB.consume_quiescent {i T : Nat} {e : Nat × BackrefInfo} {w w' : World} {count k : Nat} (h : FPB i T [e] w)
+    (hcount : ∀ v n, w.iov i = some v → v.stableCount = some n → n ≤ count)
+    (hc : w.consume i count = some (w', k)) : ∃ v', w'.iov i = some v' ∧ v'.stableCount = some 0 := by
+  obtain ⟨hs, v, hv, hf, hb⟩ := h
+  obtain ⟨v0, n, v', hv0, hst, hcs, rfl⟩ := consume_spec hc
+  rw [hv] at hv0; cases hv0
+  refine ⟨v', by simp, ?_⟩
+  rcases hf.pend with h0 | ⟨e', h1, h2, h3, _⟩
+  · rw [hb] at h0; cases h0
+  · rw [hb] at h1; cases h1
+    have hn : n = e.2.sliceIndex - v.consumedSlices := by
+      rw [stable_idx_pend hb h2 h3] at hst
+      simp only [Option.some.injEq] at hst
+      exact hst.symm
+    have hle := hcount v n hv hst
+    obtain ⟨hk, as1, _, rfl⟩ := consumeSlices_specO hcs
+    simp only [Iov.stableCount, hb, List.head?_cons]
+    rw [if_neg (by omega)]
+    simp only [Option.some.injEq, List.length_drop]
+    omega
+
+end Woodpile.Iovec
